@@ -89,7 +89,7 @@ def batches(tier):
 # ----------------------------------------------------------------------------
 
 CLOUD_CLASSES = ["random", "interior", "box", "simplex", "skewed", "flat_const", "flat_dup", "line",
-                 "few"]
+                 "few", "point"]
 
 
 def _rot(rng: PlanRng, d):
@@ -116,6 +116,10 @@ def make_cloud(rng: PlanRng, cls, d):
         X = np.vstack([np.zeros(d), np.eye(d)]) * rng.uniform(0.5, 2.0) + 0.2
     elif cls == "skewed":
         X = rng.uniform(0.1, 1.0, (m, d)) * np.array([1.0, 40.0, 0.03, 5.0, 0.5][:d])
+    elif cls == "point":
+        # one point, possibly repeated: zero width, zero volume
+        X = np.repeat(rng.uniform(0.1, 3.0, (1, d)), rng.integers(1, 4), axis=0)
+        meta["flat"] = True
     elif cls == "few":
         # fewer points than dimensions + 1: necessarily flat (2 points span a segment, ...)
         X = rng.uniform(0.1, 3.0, (rng.integers(2, d), d))
